@@ -32,6 +32,9 @@ package pub
 //@ specfun strippedVal(t) = (implements(t, "pub.btoer") ==> props[t]["ActivityStreamsBto"] == nil) && (implements(t, "pub.bccer") ==> props[t]["ActivityStreamsBcc"] == nil)
 //@ specfun stripped(x) = props[x]["ActivityStreamsBto"] == nil && props[x]["ActivityStreamsBcc"] == nil && (props[x]["ActivityStreamsObject"] != nil ==> (forall j Int :: {props[x]["ActivityStreamsObject"].At(j)} 0 <= j && j < props[x]["ActivityStreamsObject"].Len() ==> strippedVal(props[x]["ActivityStreamsObject"].At(j).GetType())))
 //@ specfun plen(p) = p == nil ? 0 : p.Len()
+// C16: container p holds what it held under container version v0, followed by one IRI element per entry of the slice ids, in order
+//@ specfun appendedIds(p, v0, ids) = p != nil && p.Len() == lenv(v0, p) + len(ids) && (forall k Int :: {p.At(k)} 0 <= k && k < lenv(v0, p) ==> p.At(k) == atv(v0, p, k)) && (forall j Int :: {ids[j]} 0 <= j && j < len(ids) ==> p.At(lenv(v0, p) + j).IsIRI() && p.At(lenv(v0, p) + j).GetIRI() == ids[j])
+//@ specfun appendedSoFar(p, v0, ids, n) = p != nil && n <= len(ids) && p.Len() == lenv(v0, p) + n && (forall k Int :: {p.At(k)} 0 <= k && k < lenv(v0, p) ==> p.At(k) == atv(v0, p, k)) && (forall j Int :: {ids[j]} 0 <= j && j < n ==> p.At(lenv(v0, p) + j).IsIRI() && p.At(lenv(v0, p) + j).GetIRI() == ids[j])
 
 // C20: the id string by which dedupeOrderedItems identifies an element
 //@ specfun ekey(e) = str(elemId(e))
@@ -799,7 +802,7 @@ package pub
 //@ modifies $db, C:Bool[w.undeliverable], A:Int, A:Iface, MD:String:Int, MV:String:Int
 //@ loop 9 [C09] invariant unlocked: held == emp
 //@ loop 9 [C08] invariant unlocked: held == emp
-//@ [C10] ensures object_required: old(a.GetActivityStreamsObject() == nil || a.GetActivityStreamsObject().Len() == 0) ==> result == pub.ErrObjectRequired && eff == old(eff)
+//@ [C10,C16] ensures object_required: old(a.GetActivityStreamsObject() == nil || a.GetActivityStreamsObject().Len() == 0) ==> result == pub.ErrObjectRequired && eff == old(eff)
 //@ skip C11 panic-freedom of the attributedTo normalisation needs quantified invariants over a slice of maps and over the objects' attributedTo slots; not proved (bounded stand-in only)
 
 //@ func (pub.SocialWrappedCallbacks).create$1
@@ -815,6 +818,9 @@ package pub
 
 //@ func (pub.SocialWrappedCallbacks).update
 //@ params w, c, a
+//@ let N = a.GetActivityStreamsObject() == nil ? 0 : a.GetActivityStreamsObject().Len()
+//@ [C16] ensures one_update_per_named_object: result == nil ==> nUpdate == old(nUpdate) + N
+//@ loop 2 [C16] invariant updated_so_far: nUpdate == old(nUpdate) + $ri + 1 && $ri + 1 <= len(objIds) && len(objIds) == N
 //@ [C11] requires w.db != nil && w.outboxIRI != nil && w.undeliverable != nil && a != nil && w.newTransport != nil && w.clock != nil
 //@ [C09] requires unlocked: held == emp
 //@ [C09] ensures unlocked: held == emp
@@ -824,11 +830,13 @@ package pub
 //@ modifies $db, C:Bool[w.undeliverable], A:Int, A:Iface
 //@ loop 2 [C09] invariant unlocked: held == emp
 //@ loop 2 [C08] invariant unlocked: held == emp
-//@ [C10] ensures object_required: old(a.GetActivityStreamsObject() == nil || a.GetActivityStreamsObject().Len() == 0) ==> result == pub.ErrObjectRequired && eff == old(eff)
-//@ loop 1 [C11] invariant collected: len(objIds) == (iter == nil ? op.Len() : ipos(iter)) && (iter != nil ==> ilen(iter) == op.Len())
+//@ [C10,C16] ensures object_required: old(a.GetActivityStreamsObject() == nil || a.GetActivityStreamsObject().Len() == 0) ==> result == pub.ErrObjectRequired && eff == old(eff)
+//@ loop 1 [C11,C16] invariant collected: len(objIds) == (iter == nil ? op.Len() : ipos(iter)) && (iter != nil ==> ilen(iter) == op.Len())
 
 //@ func (pub.SocialWrappedCallbacks).update$1
 //@ params idx, loopId
+//@ [C16] ensures one_update_of_the_named_object: result == nil ==> nUpdate == old(nUpdate) + 1
+//@ [C16] ensures at_most_one_update: nUpdate <= old(nUpdate) + 1
 //@ [C11] requires w.db != nil && op != nil && loopId != nil
 //@ [C09] requires unlocked: held == emp
 //@ [C09] ensures unlocked: held == emp
@@ -840,6 +848,10 @@ package pub
 
 //@ func (pub.SocialWrappedCallbacks).deleteFn
 //@ params w, c, a
+//@ let N = a.GetActivityStreamsObject() == nil ? 0 : a.GetActivityStreamsObject().Len()
+//@ [C16] ensures one_tombstone_per_named_object: result == nil ==> nUpdate == old(nUpdate) + N
+//@ loop 1 [C16] invariant collected: len(objIds) == (iter == nil ? op.Len() : ipos(iter)) && (iter != nil ==> ilen(iter) == op.Len())
+//@ loop 2 [C16] invariant replaced_so_far: nUpdate == old(nUpdate) + $ri + 1 && $ri + 1 <= len(objIds) && len(objIds) == N
 //@ [C11] requires w.db != nil && w.outboxIRI != nil && w.undeliverable != nil && a != nil && w.newTransport != nil && w.clock != nil
 //@ [C09] requires unlocked: held == emp
 //@ [C09] ensures unlocked: held == emp
@@ -849,17 +861,23 @@ package pub
 //@ modifies $db, C:Bool[w.undeliverable], A:Int, A:Iface
 //@ loop 2 [C09] invariant unlocked: held == emp
 //@ loop 2 [C08] invariant unlocked: held == emp
-//@ [C10] ensures object_required: old(a.GetActivityStreamsObject() == nil || a.GetActivityStreamsObject().Len() == 0) ==> result == pub.ErrObjectRequired && eff == old(eff)
+//@ [C10,C16] ensures object_required: old(a.GetActivityStreamsObject() == nil || a.GetActivityStreamsObject().Len() == 0) ==> result == pub.ErrObjectRequired && eff == old(eff)
+//@ modifies timeval, gStored, gNowTick
 
 //@ func (pub.SocialWrappedCallbacks).deleteFn$1
 //@ params idx, loopId
+//@ [C16] at call pub.Database.Get#1: ghost gStored = $res0
+//@ [C16] at call pub.Clock.Now#1: ghost gNowTick = nowTick
+//@ [C16] at call pub.Database.Update#1: assert replaced_by_tombstone_with_same_id_former_type_and_current_time: $arg2 != nil && $arg2.GetTypeName() == "Tombstone" && $arg2.GetJSONLDId() != nil && $arg2.GetJSONLDId().Get() == loopId && strelem(props[$arg2]["ActivityStreamsFormerType"], 0) == gStored.GetTypeName() && props[$arg2]["ActivityStreamsDeleted"] != nil && timeval[props[$arg2]["ActivityStreamsDeleted"]] == clockAt(gNowTick)
+//@ [C16] ensures one_replacement_per_named_object: result == nil ==> nUpdate == old(nUpdate) + 1
+//@ [C16] ensures nothing_replaced_on_failure_before_update: nUpdate <= old(nUpdate) + 1
 //@ [C11] requires w.db != nil && w.clock != nil && loopId != nil
 //@ [C09] requires unlocked: held == emp
 //@ [C09] ensures unlocked: held == emp
 //@ [C08] requires unlocked: held == emp
 //@ [C08] ensures unlocked: held == emp
 //@ [C07] requires authed: authed
-//@ modifies $dbonly, ASH, ASHP, props, idval
+//@ modifies $dbonly, ASH, ASHP, props, idval, timeval, gStored, gNowTick
 
 //@ func (pub.SocialWrappedCallbacks).follow
 //@ params w, c, a
@@ -870,7 +888,7 @@ package pub
 //@ [C08] ensures unlocked: held == emp
 //@ [C07] requires authed: authed
 //@ modifies $db, C:Bool[w.undeliverable]
-//@ [C10] ensures object_required: old(a.GetActivityStreamsObject() == nil || a.GetActivityStreamsObject().Len() == 0) ==> result == pub.ErrObjectRequired && eff == old(eff)
+//@ [C10,C16] ensures object_required: old(a.GetActivityStreamsObject() == nil || a.GetActivityStreamsObject().Len() == 0) ==> result == pub.ErrObjectRequired && eff == old(eff)
 
 //@ func (pub.SocialWrappedCallbacks).add
 //@ params w, c, a
@@ -881,8 +899,8 @@ package pub
 //@ [C08] ensures unlocked: held == emp
 //@ [C07] requires authed: authed
 //@ modifies $db, C:Bool[w.undeliverable]
-//@ [C10] ensures object_required: old(a.GetActivityStreamsObject() == nil || a.GetActivityStreamsObject().Len() == 0) ==> result == pub.ErrObjectRequired && eff == old(eff)
-//@ [C10] ensures target_required: old(!(a.GetActivityStreamsObject() == nil || a.GetActivityStreamsObject().Len() == 0) && (a.GetActivityStreamsTarget() == nil || a.GetActivityStreamsTarget().Len() == 0)) ==> result == pub.ErrTargetRequired && eff == old(eff)
+//@ [C10,C16] ensures object_required: old(a.GetActivityStreamsObject() == nil || a.GetActivityStreamsObject().Len() == 0) ==> result == pub.ErrObjectRequired && eff == old(eff)
+//@ [C10,C16] ensures target_required: old(!(a.GetActivityStreamsObject() == nil || a.GetActivityStreamsObject().Len() == 0) && (a.GetActivityStreamsTarget() == nil || a.GetActivityStreamsTarget().Len() == 0)) ==> result == pub.ErrTargetRequired && eff == old(eff)
 
 //@ func (pub.SocialWrappedCallbacks).remove
 //@ params w, c, a
@@ -893,11 +911,20 @@ package pub
 //@ [C08] ensures unlocked: held == emp
 //@ [C07] requires authed: authed
 //@ modifies $db, C:Bool[w.undeliverable]
-//@ [C10] ensures object_required: old(a.GetActivityStreamsObject() == nil || a.GetActivityStreamsObject().Len() == 0) ==> result == pub.ErrObjectRequired && eff == old(eff)
-//@ [C10] ensures target_required: old(!(a.GetActivityStreamsObject() == nil || a.GetActivityStreamsObject().Len() == 0) && (a.GetActivityStreamsTarget() == nil || a.GetActivityStreamsTarget().Len() == 0)) ==> result == pub.ErrTargetRequired && eff == old(eff)
+//@ [C10,C16] ensures object_required: old(a.GetActivityStreamsObject() == nil || a.GetActivityStreamsObject().Len() == 0) ==> result == pub.ErrObjectRequired && eff == old(eff)
+//@ [C10,C16] ensures target_required: old(!(a.GetActivityStreamsObject() == nil || a.GetActivityStreamsObject().Len() == 0) && (a.GetActivityStreamsTarget() == nil || a.GetActivityStreamsTarget().Len() == 0)) ==> result == pub.ErrTargetRequired && eff == old(eff)
 
 //@ func (pub.SocialWrappedCallbacks).like
 //@ params w, c, a
+//@ modifies gV0
+//@ [C16] at call pub.Database.Liked#1: ghost gV0 = ASHP
+//@ [C16] at call pub.Database.Liked#1: assume!post liked_items_not_the_activitys_object: props[$res0]["ActivityStreamsItems"] != op
+//@ loop 1 [C16] invariant length: likedItems != nil && likedItems != op && likedItems.Len() == lenv(gV0, likedItems) + (iter == nil ? op.Len() : ipos(iter)) && (iter != nil ==> ilen(iter) == op.Len() && iparent(iter) == op && iter == op.At(ipos(iter)))
+//@ loop 1 [C16] invariant ids_at_the_front: forall k Int :: {likedItems.At(k)} 0 <= k && k < (iter == nil ? op.Len() : ipos(iter)) ==> likedItems.At(k).IsIRI() && likedItems.At(k).GetIRI() == elemId(op.At((iter == nil ? op.Len() : ipos(iter)) - 1 - k))
+//@ loop 1 [C16] invariant older_entries_follow_unchanged: forall k Int :: {likedItems.At(k)} (iter == nil ? op.Len() : ipos(iter)) <= k && k < likedItems.Len() ==> likedItems.At(k) == atv(gV0, likedItems, k - (iter == nil ? op.Len() : ipos(iter)))
+//@ loop 1 [C16] invariant still_the_liked_items: props[liked]["ActivityStreamsItems"] == likedItems
+//@ [C16] at call pub.Database.Update#1: assert object_ids_put_at_the_front_of_liked: $arg2 == liked && props[liked]["ActivityStreamsItems"] != nil && props[liked]["ActivityStreamsItems"].Len() == lenv(gV0, props[liked]["ActivityStreamsItems"]) + op.Len() && (forall k Int :: {props[liked]["ActivityStreamsItems"].At(k)} 0 <= k && k < op.Len() ==> props[liked]["ActivityStreamsItems"].At(k).IsIRI() && props[liked]["ActivityStreamsItems"].At(k).GetIRI() == elemId(op.At(op.Len() - 1 - k))) && (forall k Int :: {props[liked]["ActivityStreamsItems"].At(k)} op.Len() <= k && k < props[liked]["ActivityStreamsItems"].Len() ==> props[liked]["ActivityStreamsItems"].At(k) == atv(gV0, props[liked]["ActivityStreamsItems"], k - op.Len()))
+//@ [C16] ensures liked_collection_updated_once: result == nil ==> nUpdate == old(nUpdate) + 1
 //@ [C11] requires w.db != nil && w.outboxIRI != nil && w.undeliverable != nil && a != nil && w.newTransport != nil && w.clock != nil
 //@ [C09] requires unlocked: held == emp
 //@ [C09] ensures unlocked: held == emp
@@ -908,7 +935,7 @@ package pub
 //@ [C08] at call Database.Update#1: assert same_hold: held[srcKey[liked]] && srcEpoch[liked] == epoch[srcKey[liked]]
 //@ loop 1 [C09] invariant holds_actor: held == emp[str(actorIRI) := true]
 //@ loop 1 [C08] invariant holds_actor: held == emp[str(actorIRI) := true] && srcKey[liked] == str(actorIRI) && srcEpoch[liked] == epoch[str(actorIRI)]
-//@ [C10] ensures object_required: old(a.GetActivityStreamsObject() == nil || a.GetActivityStreamsObject().Len() == 0) ==> result == pub.ErrObjectRequired && eff == old(eff)
+//@ [C10,C16] ensures object_required: old(a.GetActivityStreamsObject() == nil || a.GetActivityStreamsObject().Len() == 0) ==> result == pub.ErrObjectRequired && eff == old(eff)
 
 //@ func (pub.SocialWrappedCallbacks).undo
 //@ params w, c, a
@@ -919,7 +946,7 @@ package pub
 //@ [C08] ensures unlocked: held == emp
 //@ [C07] requires authed: authed
 //@ modifies $db, C:Bool[w.undeliverable], gDoc, gActWit
-//@ [C10] ensures object_required: old(a.GetActivityStreamsObject() == nil || a.GetActivityStreamsObject().Len() == 0) ==> result == pub.ErrObjectRequired && eff == old(eff)
+//@ [C10,C16] ensures object_required: old(a.GetActivityStreamsObject() == nil || a.GetActivityStreamsObject().Len() == 0) ==> result == pub.ErrObjectRequired && eff == old(eff)
 
 //@ func (pub.SocialWrappedCallbacks).block
 //@ params w, c, a
@@ -931,7 +958,7 @@ package pub
 //@ [C08] ensures unlocked: held == emp
 //@ [C07] requires authed: authed
 //@ modifies $db, C:Bool[w.undeliverable]
-//@ [C10] ensures object_required: old(a.GetActivityStreamsObject() == nil || a.GetActivityStreamsObject().Len() == 0) ==> result == pub.ErrObjectRequired && eff == old(eff)
+//@ [C10,C16] ensures object_required: old(a.GetActivityStreamsObject() == nil || a.GetActivityStreamsObject().Len() == 0) ==> result == pub.ErrObjectRequired && eff == old(eff)
 
 //@ func (pub.SocialWrappedCallbacks).callbacks
 //@ params w, fns
@@ -940,6 +967,12 @@ package pub
 // ---------------------------------------------------------------- util.go, handlers.go
 //@ func pub.add
 //@ params c, op, target, db
+//@ modifies gV0, gOwns
+//@ loop 1 [C16] invariant ids_collected: len(opIds) == (iter == nil ? op.Len() : ipos(iter)) && (iter != nil ==> ilen(iter) == op.Len() && iparent(iter) == op && iter == op.At(ipos(iter))) && (forall j Int :: {opIds[j]} 0 <= j && j < len(opIds) ==> opIds[j] == elemId(op.At(j)))
+//@ [C16] at call dyn.loopFn#1: assert appends_exactly_the_object_ids: len(opIds) == lenv(old(ASHP), op) && (forall j Int :: {opIds[j]} 0 <= j && j < len(opIds) ==> opIds[j] == old(elemId(atv(ASHP, op, j))))
+//@ loop 2 [C16] invariant own_backing_array: arrof(targetIds) != arrof(opIds)
+//@ loop 2 [C16] invariant ids_fixed: len(opIds) == lenv(old(ASHP), op) && (forall j Int :: {opIds[j]} 0 <= j && j < len(opIds) ==> opIds[j] == old(elemId(atv(ASHP, op, j))))
+//@ loop 3 [C16] invariant ids_fixed: len(opIds) == lenv(old(ASHP), op) && (forall j Int :: {opIds[j]} 0 <= j && j < len(opIds) ==> opIds[j] == old(elemId(atv(ASHP, op, j))))
 //@ [C11] requires op != nil && target != nil && db != nil
 //@ [C09] requires unlocked: held == emp
 //@ [C09] ensures unlocked: held == emp
@@ -952,6 +985,15 @@ package pub
 
 //@ func pub.add$1
 //@ params t
+//@ modifies gV0, gOwns
+//@ [C16] at call pub.Database.Owns#1: ghost gOwns = $res0 && $res1 == nil
+//@ [C16] at call pub.Database.Get#1: ghost gV0 = ASHP
+//@ [C16] ensures targets_not_owned_are_left_alone: !gOwns ==> nUpdate == old(nUpdate)
+//@ [C16] ensures owned_target_updated_once: result == nil && gOwns ==> nUpdate == old(nUpdate) + 1
+//@ [C16] ensures at_most_one_update: nUpdate <= old(nUpdate) + 1
+//@ [C16] at call pub.Database.Update#1: assert object_ids_appended_in_order: $arg2 == tp && (streams.IsOrExtendsActivityStreamsOrderedCollection(tp) ? appendedIds(props[tp]["ActivityStreamsOrderedItems"], gV0, opIds) : appendedIds(props[tp]["ActivityStreamsItems"], gV0, opIds))
+//@ loop 1 [C16] invariant appended_so_far: props[tp]["ActivityStreamsOrderedItems"] == oiProp && appendedSoFar(oiProp, gV0, opIds, $ri + 1)
+//@ loop 2 [C16] invariant appended_so_far: props[tp]["ActivityStreamsItems"] == iProp && appendedSoFar(iProp, gV0, opIds, $ri + 1)
 //@ [C11] requires db != nil && t != nil
 //@ [C09] requires unlocked: held == emp
 //@ [C09] ensures unlocked: held == emp
@@ -959,7 +1001,7 @@ package pub
 //@ [C08] ensures unlocked: held == emp
 //@ [C07] requires authed: authed
 //@ [C08] at call Database.Update#1: assert same_hold: held[srcKey[tp]] && srcEpoch[tp] == epoch[srcKey[tp]]
-//@ modifies $db
+//@ modifies $dbstate, ASHP, props
 //@ loop 1 [C09] invariant holds_t: held == emp[str(t) := true]
 //@ loop 2 [C09] invariant holds_t: held == emp[str(t) := true]
 //@ loop 1 [C08] invariant holds_t: held == emp[str(t) := true] && srcKey[tp] == str(t) && srcEpoch[tp] == epoch[str(t)]
@@ -1134,7 +1176,13 @@ package pub
 //@ func pub.toTombstone
 //@ params obj, id, now
 //@ [C11] requires obj != nil
-//@ modifies ASH, ASHP, props, idval
+//@ modifies ASH, ASHP, props, idval, timeval
+//@ [C16] ensures a_tombstone: result != nil && result.GetTypeName() == "Tombstone"
+//@ [C16] ensures with_the_same_id: result.GetJSONLDId() != nil && result.GetJSONLDId().Get() == id
+//@ [C16] ensures former_type_is_the_old_type: result.GetActivityStreamsFormerType() != nil && result.GetActivityStreamsFormerType().Len() == 1 && strelem(result.GetActivityStreamsFormerType(), 0) == obj.GetTypeName()
+//@ [C16] ensures original_published_time: props[result]["ActivityStreamsPublished"] == (implements(obj, "pub.publisheder") ? old(props[obj]["ActivityStreamsPublished"]) : nil)
+//@ [C16] ensures original_updated_time: props[result]["ActivityStreamsUpdated"] == (implements(obj, "pub.updateder") ? old(props[obj]["ActivityStreamsUpdated"]) : nil)
+//@ [C16] ensures deleted_at_the_current_time: result.GetActivityStreamsDeleted() != nil && timeval[result.GetActivityStreamsDeleted()] == instant(now)
 
 //@ func pub.clearSensitiveFields
 //@ params obj
